@@ -63,6 +63,7 @@ static struct ubuf *g_ocached, *g_ocend; static size_t g_ocoff;
 static int g_arg_off, g_arg_size;       /* *offset_p / *size_p at entry (get, read, write) */
 static int g_spare_used;                /* stub: segments handed out */
 static int g_single_ret;                /* stub: answer to UBUF_SINGLE */
+static struct ubuf *g_fresh;            /* stub: a block the manager has just allocated (single owner by construction) */
 static int g_nfree; static struct ubuf *g_freed[2];   /* stub: chains released */
 static struct ubuf *g_spl_seg; static int g_spl_off, g_spl_size, g_spl_calls; static struct ubuf *g_spl_ret; /* stub: splice */
 static bool g_stub_bad;
@@ -86,7 +87,7 @@ static int stub_blk_control(struct ubuf *ubuf, int command, va_list args)
         *new_p = &n->ubuf;
         return UBASE_ERR_NONE;
     }
-    case UBUF_SINGLE: return g_single_ret;
+    case UBUF_SINGLE: return (g_fresh != NULL && ubuf == g_fresh) ? UBASE_ERR_NONE : g_single_ret;
     case UBUF_MAP_BLOCK: { uint8_t **p = va_arg(args, uint8_t **); *p = blk->buffer; return UBASE_ERR_NONE; }
     case UBUF_UNMAP_BLOCK: return UBASE_ERR_NONE;
     case UBUF_SPLICE_BLOCK: {
@@ -395,7 +396,7 @@ __CPROVER_ensures(post_splice(ubuf, offset, size, __CPROVER_return_value))
       g_nd0.cached_end_ubuf = ce < 0 ? NULL : &NODE(ce)->ubuf; \
     } \
     H_spec_snap(&g_o, &g_nd0.ubuf); g_ocached = g_nd0.cached_ubuf; g_ocoff = g_nd0.cached_offset; g_ocend = g_nd0.cached_end_ubuf; \
-    g_spare_used = 0; g_nfree = 0; g_spl_calls = 0; g_stub_bad = false; \
+    g_spare_used = 0; g_nfree = 0; g_spl_calls = 0; g_stub_bad = false; g_fresh = NULL; \
     VIN(int, single_ret); g_single_ret = single_ret == 0 ? UBASE_ERR_NONE : UBASE_ERR_BUSY; \
     struct ubuf *ubuf = &g_nd0.ubuf
 /* second block: NINS segments, a well-formed head of its own */
